@@ -81,12 +81,20 @@ def _summ(res):
 
 # ------------------------------------------------------------------ file objects
 
-class VFile(io.BufferedIOBase):
-    """Unbuffered binary file on a VFS inode: every read/write call is one primitive."""
+BUFSIZE = 8192
 
-    def __init__(self, node, path, readable, writable, append):
+
+class VFile(io.BufferedIOBase):
+    """Binary file on a VFS inode. Reads are one primitive each. Writes go through a user-space buffer like Python's
+    BufferedWriter: the bytes reach the inode (one `write` primitive, possibly torn in two) when the buffer is flushed -
+    at flush(), close(), a seek / read, or when more than 8 KiB are pending. buffered=False (os.open / buffering=0): every
+    write call is a primitive."""
+
+    def __init__(self, node, path, readable, writable, append, buffered=True):
         self._node, self._path = node, path
         self._r, self._w, self._append = readable, writable, append
+        self._buffered = buffered
+        self._buf = bytearray()
         self._pos = len(node.data) if append else 0
         self._closed = False
         self._fd = S.next_fd[0]
@@ -118,6 +126,7 @@ class VFile(io.BufferedIOBase):
         self._check()
         if not self._r:
             raise io.UnsupportedOperation("not readable")
+        self._flush_buf()
 
         def f():
             data = bytes(self._node.data[self._pos:] if (n is None or n < 0) else self._node.data[self._pos:self._pos + n])
@@ -150,6 +159,19 @@ class VFile(io.BufferedIOBase):
         if not self._w:
             raise io.UnsupportedOperation("not writable")
         b = bytes(b)
+        if self._buffered:
+            self._buf += b
+            if len(self._buf) > BUFSIZE:
+                self._flush_buf()
+            return len(b)
+        return self._write_through(b)
+
+    def _flush_buf(self):
+        if self._buf:
+            b, self._buf = bytes(self._buf), bytearray()
+            self._write_through(b)
+
+    def _write_through(self, b):
         halves = [b] if (len(b) < 2 or not S.torn) else [b[:len(b) // 2], b[len(b) // 2:]]
         for i, part in enumerate(halves):
             def f(part=part):
@@ -166,6 +188,7 @@ class VFile(io.BufferedIOBase):
 
     def seek(self, off, whence=0):
         self._check()
+        self._flush_buf()
         if whence == 0:
             self._pos = off
         elif whence == 1:
@@ -175,10 +198,11 @@ class VFile(io.BufferedIOBase):
         return self._pos
 
     def tell(self):
-        return self._pos
+        return self._pos + len(self._buf)
 
     def truncate(self, size=None):
         self._check()
+        self._flush_buf()
         size = self._pos if size is None else size
 
         def f():
@@ -187,12 +211,14 @@ class VFile(io.BufferedIOBase):
         return _do("truncate", (_rel(self._path), size), f)
 
     def flush(self):
-        return None
+        self._check()
+        self._flush_buf()
 
     def close(self):
         if self._closed:
             return
         try:
+            self._flush_buf()
             _do("close", (_rel(self._path),), lambda: None)
         finally:
             self._closed = True
@@ -222,6 +248,7 @@ def _flags_of(mode):
 def v_open(file, mode="r", buffering=-1, encoding=None, errors=None, newline=None, closefd=True, opener=None):
     if isinstance(file, int) and file in S.fds:
         raw = S.fds[file]
+        raw._buffered = buffering != 0   # open(fd) / os.fdopen(fd) put a buffered writer on the descriptor
     elif under(file):
         if opener is not None:
             fd = opener(os.fspath(file), _flags_of(mode)[0])
@@ -232,7 +259,7 @@ def v_open(file, mode="r", buffering=-1, encoding=None, errors=None, newline=Non
             node = _do("open", (_rel(path), mode.replace("b", "").replace("t", "")), lambda: S.vfs.open_node(path, flags))
             if node.kind == "d":
                 raise _err(errno.EISDIR, path)
-            raw = VFile(node, path, r, w, app)
+            raw = VFile(node, path, r, w, app, buffered=(buffering != 0))
     else:
         return S.real["bopen"](file, mode, buffering, encoding, errors, newline, closefd, opener)
     if "b" in mode:
@@ -411,7 +438,7 @@ def i_open(p, flags, mode=0o777, *, dir_fd=None):
     node = _do("open", (_rel(p), f"flags={flags & (os.O_CREAT | os.O_EXCL | os.O_TRUNC | os.O_APPEND | os.O_ACCMODE)}"), lambda: S.vfs.open_node(p, flags))
     if node.kind == "d":
         raise HarnessUnsupported("directory file descriptors are not modelled")
-    f = VFile(node, p, acc in (os.O_RDONLY, os.O_RDWR), acc in (os.O_WRONLY, os.O_RDWR), bool(flags & os.O_APPEND))
+    f = VFile(node, p, acc in (os.O_RDONLY, os.O_RDWR), acc in (os.O_WRONLY, os.O_RDWR), bool(flags & os.O_APPEND), buffered=False)
     return f.fileno()
 
 
